@@ -15,7 +15,7 @@ import (
 // handleTags handles any messages that have tags that will affect state. (e.g.
 // 'account' tags.)
 func handleTags(c *Client, e Event) {
-	if len(e.Tags) == 0 {
+	if len(e.Tags) == 0 || e.Source == nil {
 		return
 	}
 
